@@ -114,4 +114,378 @@ theorem norm_idem (W : World) (p : Pat) (σ : State) :
     · rw [norm_block_single_eq _ _ _ _ _ h, norm_idem W p σ y]
     · rw [norm_block_single_ne _ _ _ _ _ h, norm_block_single_ne _ _ _ _ _ h]
 
+/-! ## inversion lemmas -/
+
+theorem firstSome_some {α β : Type} (f : α → Option β) (l : List α) (b : β)
+    (h : firstSome f l = some b) : ∃ a ∈ l, f a = some b := by
+  induction l with
+  | nil => simp [firstSome] at h
+  | cons a as ih =>
+    unfold firstSome at h
+    cases hfa : f a with
+    | some b' =>
+      rw [hfa] at h
+      simp at h
+      exact ⟨a, by simp, by rw [hfa, h]⟩
+    | none =>
+      rw [hfa] at h
+      simp at h
+      obtain ⟨a', ha', hf⟩ := ih h
+      exact ⟨a', by simp [ha'], hf⟩
+
+theorem matchP_symbol_some (W : World) (nm : Pat) (t : Tree) (σ : State) (r : Tree × State)
+    (h : matchP W (.symbol nm) t σ = some r) :
+    ∃ o, symObj (peel t) = some o ∧ ∃ n ∈ W.names o, ∃ r', matchP W nm (.str n) σ = some r' := by
+  simp only [matchP] at h
+  cases ho : symObj (peel t) with
+  | none => rw [ho] at h; simp at h
+  | some o =>
+    rw [ho] at h
+    simp only at h
+    cases hf : firstSome (fun n => matchP W nm (.str n) σ) (W.names o) with
+    | none => rw [hf] at h; simp at h
+    | some r' =>
+      obtain ⟨n, hn, hm⟩ := firstSome_some _ _ _ hf
+      exact ⟨o, rfl, n, hn, r', hm⟩
+
+theorem symObj_kind (k o fs ob) (h : symObj (.node k o fs) = some ob) :
+    k ∈ ["Ident", "SelectorExpr", "IndexExpr", "IndexListExpr"] := by
+  simp only [symObj] at h
+  by_cases h1 : k = "Ident" ∨ k = "SelectorExpr"
+  · rcases h1 with h1 | h1 <;> simp [h1]
+  · rw [if_neg h1] at h
+    by_cases h2 : k = "IndexExpr" ∨ k = "IndexListExpr"
+    · rcases h2 with h2 | h2 <;> simp [h2]
+    · rw [if_neg h2] at h; simp at h
+
+theorem matchP_node_some (W : World) (name : String) (fs : List Pat) (t : Tree) (σ : State)
+    (r : Tree × State) (h : matchP W (.node name fs) t σ = some r) :
+    ∃ o ts σ', peel t = .node name o ts ∧ matchFields W fs ts σ = some σ' := by
+  simp only [matchP] at h
+  cases hp : peel t with
+  | node k o ts =>
+    rw [hp] at h
+    simp only at h
+    by_cases hk : k = name
+    · rw [if_pos hk] at h
+      cases hm : matchFields W fs ts σ with
+      | none => rw [hm] at h; simp at h
+      | some σ' => exact ⟨o, ts, σ', by rw [hk], hm⟩
+    · rw [if_neg hk] at h; simp at h
+  | paren k x => rw [hp] at h; simp at h
+  | block fl es => rw [hp] at h; simp at h
+  | list es => rw [hp] at h; simp at h
+  | str s => rw [hp] at h; simp at h
+  | nil => rw [hp] at h; simp at h
+
+/-! ## the node-kind tables (obligations on `Verif.C08.Generated`) -/
+
+/-- What the filter theorems need from nodeToASTTypes / allTypes. Proved by `decide` over the
+tables regenerated from the real parser (`tables_ok` in Theorems.lean). -/
+structure TablesOK : Prop where
+  univ_all : ∀ u ∈ Generated.universeKinds, u ∈ Generated.allKinds
+  univ_not : ∀ u ∈ Generated.universeKinds, u ∈ Generated.notKinds
+  univ_any : ∀ u ∈ Generated.universeKinds, u ∈ tableKinds "Any"
+  univ_tce : ∀ u ∈ Generated.universeKinds, u ∈ tableKinds "TrulyConstantExpression"
+  self : ∀ u ∈ Generated.universeKinds, u = "BlockStmt" ∨ u = "FieldList" ∨ u ∈ tableKinds u
+  symbol : ∀ k ∈ ["Ident", "SelectorExpr", "IndexExpr", "IndexListExpr"], k ∈ tableKinds "Symbol"
+  builtin : "Ident" ∈ tableKinds "Builtin"
+  object : "Ident" ∈ tableKinds "Object"
+  intlit : "BasicLit" ∈ tableKinds "IntegerLiteral" ∧ "UnaryExpr" ∈ tableKinds "IntegerLiteral"
+  list : "BlockStmt" ∈ tableKinds "List" ∧ "FieldList" ∈ tableKinds "List"
+  no_empty : "" ∉ Generated.universeKinds
+
+/-- `k` is acceptable for `p`: if it is a kind of the universe, it is an entry kind of `p`. -/
+def Ok (p : Pat) (k : Kind) : Prop := k ∈ Generated.universeKinds → k ∈ entryKinds p
+def OkL (ps : List Pat) (k : Kind) : Prop := k ∈ Generated.universeKinds → k ∈ entryKindsL ps
+
+theorem blockKind_list (T : TablesOK) (fl : Bool) : blockKind fl ∈ tableKinds "List" := by
+  cases fl <;> simp [blockKind, T.list.1, T.list.2]
+
+/-! ## entry kinds: a match at a plain node -/
+
+mutual
+theorem entry_node (T : TablesOK) (W : World) (p : Pat) (k : Kind) (o : Option Nat) (fs : List Tree)
+    (σ : State) (r : Tree × State) (hk : k ≠ "BlockStmt" ∧ k ≠ "FieldList")
+    (h : matchP W p (.node k o fs) σ = some r) : Ok p k := by
+  intro hu
+  cases p with
+  | any => simpa [entryKinds] using T.univ_any k hu
+  | nilp => simpa [entryKinds] using T.univ_all k hu
+  | str s => simp [matchP] at h
+  | bindAny n => simpa [entryKinds] using T.univ_all k hu
+  | bind n q =>
+    simp only [matchP] at h
+    cases hl : List.lookup n σ with
+    | some v => rw [hl] at h; simp at h
+    | none =>
+      rw [hl] at h
+      simp only at h
+      cases hm : matchP W q (.node k o fs) σ with
+      | none => rw [hm] at h; simp at h
+      | some r' =>
+        have := entry_node T W q k o fs σ r' hk hm hu
+        simpa [entryKinds] using this
+  | or qs =>
+    simp only [matchP] at h
+    have := entry_node_or T W qs k o fs σ r hk h hu
+    simpa [entryKinds] using this
+  | not q => simpa [entryKinds] using T.univ_all k hu
+  | lnil => simp [matchP] at h
+  | lcons a b => simp [matchP] at h
+  | symbol nm =>
+    obtain ⟨ob, hob, _⟩ := matchP_symbol_some W nm _ σ r h
+    rw [peel_node] at hob
+    simpa [entryKinds] using T.symbol k (symObj_kind k o fs ob hob)
+  | builtin nm =>
+    simp only [matchP, peel_node] at h
+    match fs, h with
+    | [name], h =>
+      by_cases hi : k = "Ident"
+      · subst hi; simpa [entryKinds] using T.builtin
+      · simp [hi] at h
+    | [], h => simp at h
+    | _ :: _ :: _, h => simp at h
+  | object nm =>
+    simp only [matchP, peel_node] at h
+    match fs, h with
+    | [name], h =>
+      by_cases hi : k = "Ident"
+      · subst hi; simpa [entryKinds] using T.object
+      · simp [hi] at h
+    | [], h => simp at h
+    | _ :: _ :: _, h => simp at h
+  | intLit v =>
+    simp only [matchP, peel_node] at h
+    by_cases hi : k = "BasicLit" ∨ k = "UnaryExpr"
+    · rcases hi with hi | hi
+      · subst hi; simpa [entryKinds] using T.intlit.1
+      · subst hi; simpa [entryKinds] using T.intlit.2
+    · rw [if_neg hi] at h; simp at h
+  | tce v => simpa [entryKinds] using T.univ_tce k hu
+  | node name ps =>
+    obtain ⟨o', ts, σ', hp, _⟩ := matchP_node_some W name ps _ σ r h
+    rw [peel_node] at hp
+    injection hp with hkn _ _
+    subst hkn
+    rcases T.self k hu with h1 | h1 | h1
+    · exact absurd h1 hk.1
+    · exact absurd h1 hk.2
+    · simpa [entryKinds] using h1
+theorem entry_node_or (T : TablesOK) (W : World) (qs : List Pat) (k : Kind) (o : Option Nat)
+    (fs : List Tree) (σ : State) (r : Tree × State) (hk : k ≠ "BlockStmt" ∧ k ≠ "FieldList")
+    (h : matchOr W qs (.node k o fs) σ = some r) : OkL qs k := by
+  intro hu
+  cases qs with
+  | nil => simp [matchOr] at h
+  | cons q qs =>
+    simp only [matchOr] at h
+    cases hm : matchP W q (.node k o fs) σ with
+    | some r' =>
+      have := entry_node T W q k o fs σ r' hk hm hu
+      simp [entryKindsL, this]
+    | none =>
+      rw [hm] at h
+      simp only at h
+      have := entry_node_or T W qs k o fs σ r hk h hu
+      simp [entryKindsL, this]
+end
+
+/-! ## entry kinds: a match at a BlockStmt / FieldList -/
+
+theorem symObj_list (es) : symObj (.list es) = none := by simp [symObj]
+
+mutual
+/-- a block that does not have exactly one element can only be matched by list-like patterns -/
+theorem entry_block_ns (T : TablesOK) (W : World) (p : Pat) (fl : Bool) (es : List Tree)
+    (σ : State) (r : Tree × State) (hn : es.length ≠ 1)
+    (h : matchP W p (.block fl es) σ = some r) : Ok p (blockKind fl) := by
+  intro hu
+  have hp := peel_block_not_single fl es hn
+  cases p with
+  | any => simpa [entryKinds] using T.univ_any _ hu
+  | nilp => simpa [entryKinds] using T.univ_all _ hu
+  | str s => simp [matchP] at h
+  | bindAny n => simpa [entryKinds] using T.univ_all _ hu
+  | bind n q =>
+    simp only [matchP] at h
+    cases hl : List.lookup n σ with
+    | some v => rw [hl] at h; simp at h
+    | none =>
+      rw [hl] at h
+      simp only at h
+      cases hm : matchP W q (.block fl es) σ with
+      | none => rw [hm] at h; simp at h
+      | some r' =>
+        have := entry_block_ns T W q fl es σ r' hn hm hu
+        simpa [entryKinds] using this
+  | or qs =>
+    simp only [matchP] at h
+    have := entry_block_ns_or T W qs fl es σ r hn h hu
+    simpa [entryKinds] using this
+  | not q => simpa [entryKinds] using T.univ_all _ hu
+  | lnil => simpa [entryKinds] using blockKind_list T fl
+  | lcons a b => simpa [entryKinds] using blockKind_list T fl
+  | symbol nm =>
+    obtain ⟨ob, hob, _⟩ := matchP_symbol_some W nm _ σ r h
+    rw [hp, symObj_list] at hob
+    simp at hob
+  | builtin nm => simp [matchP, hp] at h
+  | object nm => simp [matchP, hp] at h
+  | intLit v => simp [matchP, hp] at h
+  | tce v => simpa [entryKinds] using T.univ_tce _ hu
+  | node name ps =>
+    obtain ⟨o', ts, σ', hp', _⟩ := matchP_node_some W name ps _ σ r h
+    rw [hp] at hp'
+    simp at hp'
+theorem entry_block_ns_or (T : TablesOK) (W : World) (qs : List Pat) (fl : Bool) (es : List Tree)
+    (σ : State) (r : Tree × State) (hn : es.length ≠ 1)
+    (h : matchOr W qs (.block fl es) σ = some r) : OkL qs (blockKind fl) := by
+  intro hu
+  cases qs with
+  | nil => simp [matchOr] at h
+  | cons q qs =>
+    simp only [matchOr] at h
+    cases hm : matchP W q (.block fl es) σ with
+    | some r' =>
+      have := entry_block_ns T W q fl es σ r' hn hm hu
+      simp [entryKindsL, this]
+    | none =>
+      rw [hm] at h
+      simp only at h
+      have := entry_block_ns_or T W qs fl es σ r hn h hu
+      simp [entryKindsL, this]
+end
+
+/-- `strip t` is a node or a list (never a string or nil): what a statement / field / expression is -/
+def nodeLike (t : Tree) : Bool :=
+  match strip t with
+  | .node _ _ _ => true
+  | .list _ => true
+  | _ => false
+
+mutual
+/-- if a pattern tells a one-element block from its element, the block's kind is among its
+entry kinds -/
+theorem entry_block_single (T : TablesOK) (W : World) (p : Pat) (fl : Bool) (y : Tree) (σ : State)
+    (hy : nodeLike y = true)
+    (h : matchP W p (.block fl [y]) σ ≠ matchP W p y σ) : Ok p (blockKind fl) := by
+  intro hu
+  cases p with
+  | any => simpa [entryKinds] using T.univ_any _ hu
+  | nilp => simpa [entryKinds] using T.univ_all _ hu
+  | str s =>
+    exfalso
+    apply h
+    unfold nodeLike at hy
+    cases hs : strip y with
+    | node k o fs => simp [matchP, hs]
+    | list es => simp [matchP, hs]
+    | paren k x => rw [hs] at hy; simp at hy
+    | block fl' es => rw [hs] at hy; simp at hy
+    | str s' => rw [hs] at hy; simp at hy
+    | nil => rw [hs] at hy; simp at hy
+  | bindAny n => simpa [entryKinds] using T.univ_all _ hu
+  | bind n q =>
+    by_cases heq : matchP W q (.block fl [y]) σ = matchP W q y σ
+    · exfalso; apply h; simp [matchP, heq]
+    · have := entry_block_single T W q fl y σ hy heq hu
+      simpa [entryKinds] using this
+  | or qs =>
+    have h' : matchOr W qs (.block fl [y]) σ ≠ matchOr W qs y σ := by simpa [matchP] using h
+    have := entry_block_single_or T W qs fl y σ hy h' hu
+    simpa [entryKinds] using this
+  | not q => simpa [entryKinds] using T.univ_all _ hu
+  | lnil => simpa [entryKinds] using blockKind_list T fl
+  | lcons a b => simpa [entryKinds] using blockKind_list T fl
+  | symbol nm => exfalso; apply h; simp [matchP]
+  | builtin nm => exfalso; apply h; simp [matchP]
+  | object nm => exfalso; apply h; simp [matchP]
+  | intLit v => exfalso; apply h; simp [matchP]
+  | tce v => simpa [entryKinds] using T.univ_tce _ hu
+  | node name ps => exfalso; apply h; simp [matchP]
+theorem entry_block_single_or (T : TablesOK) (W : World) (qs : List Pat) (fl : Bool) (y : Tree)
+    (σ : State) (hy : nodeLike y = true)
+    (h : matchOr W qs (.block fl [y]) σ ≠ matchOr W qs y σ) : OkL qs (blockKind fl) := by
+  intro hu
+  cases qs with
+  | nil => simp [matchOr] at h
+  | cons q qs =>
+    by_cases h1 : matchP W q (.block fl [y]) σ = matchP W q y σ
+    · by_cases h2 : matchOr W qs (.block fl [y]) σ = matchOr W qs y σ
+      · exfalso; apply h; simp [matchOr, h1, h2]
+      · have := entry_block_single_or T W qs fl y σ hy h2 hu
+        simp [entryKindsL, this]
+    · have := entry_block_single T W q fl y σ hy h1 hu
+      simp [entryKindsL, this]
+end
+
+/-! ## well-formedness along the wrapper chain -/
+
+def isNode : Tree → Bool
+  | .node _ _ _ => true
+  | .paren _ _ => true
+  | .block _ _ => true
+  | _ => false
+
+/-- what go/ast guarantees about the wrappers the matcher looks through: a ParenExpr/ExprStmt/…
+wraps a node, the element of a one-element BlockStmt/FieldList is a node, and no plain node has
+the kind of a BlockStmt/FieldList -/
+def WFc : Tree → Prop
+  | .node k _ _ => k ≠ "BlockStmt" ∧ k ≠ "FieldList"
+  | .paren _ x => isNode x = true ∧ WFc x
+  | .block _ es =>
+    match es with
+    | [y] => isNode y = true ∧ WFc y
+    | _ => True
+  | _ => True
+
+theorem nodeLike_of_isNode : ∀ t : Tree, isNode t = true → WFc t → nodeLike t = true
+  | .node k o fs, _, _ => by simp [nodeLike]
+  | .paren k x, _, hw => by
+    simp only [WFc] at hw
+    have := nodeLike_of_isNode x hw.1 hw.2
+    simpa [nodeLike] using this
+  | .block fl es, _, _ => by simp [nodeLike]
+  | .list es, h, _ => by simp [isNode] at h
+  | .str s, h, _ => by simp [isNode] at h
+  | .nil, h, _ => by simp [isNode] at h
+
+/-- entry_complete, by recursion along the wrapper chain -/
+theorem entry_complete_aux (T : TablesOK) (W : World) (p : Pat) (σ : State) :
+    ∀ t : Tree, WFc t → ∀ r, matchP W p t σ = some r → Ok p (kindOf (norm W p σ t))
+  | .node k o fs, hw, r, h => by
+    rw [norm_node]
+    exact entry_node T W p k o fs σ r hw h
+  | .paren k x, hw, r, h => by
+    rw [norm_paren]
+    rw [match_paren] at h
+    exact entry_complete_aux T W p σ x hw.2 r h
+  | .block fl [], _, r, h => by
+    rw [norm_block_not_single _ _ _ _ _ (by simp)]
+    exact entry_block_ns T W p fl [] σ r (by simp) h
+  | .block fl (a :: b :: es), _, r, h => by
+    rw [norm_block_not_single _ _ _ _ _ (by simp)]
+    exact entry_block_ns T W p fl _ σ r (by simp) h
+  | .block fl [y], hw, r, h => by
+    simp only [WFc] at hw
+    by_cases heq : matchP W p y σ = matchP W p (.block fl [y]) σ
+    · rw [norm_block_single_eq _ _ _ _ _ heq]
+      rw [← heq] at h
+      exact entry_complete_aux T W p σ y hw.2 r h
+    · rw [norm_block_single_ne _ _ _ _ _ heq]
+      exact entry_block_single T W p fl y σ (nodeLike_of_isNode y hw.1 hw.2) (fun e => heq e.symm)
+  | .list es, _, r, h => by
+    intro hu
+    rw [norm_list] at hu
+    exact absurd hu T.no_empty
+  | .str s, _, r, h => by
+    intro hu
+    rw [norm_str] at hu
+    exact absurd hu T.no_empty
+  | .nil, _, r, h => by
+    intro hu
+    rw [norm_nil] at hu
+    exact absurd hu T.no_empty
+
 end Verif.C08
